@@ -16,7 +16,7 @@ import common as C
 CLASSES = ["Gaussian", "Exponential", "Matern", "Stable", "Rational", "Cubic", "Linear", "Circular", "Spherical",
            "HyperSpherical", "SuperSpherical", "JBessel", "Integral", "TPLGaussian", "TPLExponential", "TPLStable", "TPLSimple"]
 ERR_NAMES = {0: "ok", 1: "unknown-parameter", 2: "sill-out-of-bounds", 3: "var>sill", 4: "nugget>sill", 5: "arg-out-of-bounds",
-             6: "anis<=0", 7: "latlon-directional", 8: "other"}
+             6: "anis<=0", 7: "latlon-directional", 8: "other", 9: "UNEXPECTED-EXCEPTION"}
 SHAPE_OK = ("Stable", "Rational", "Matern", "Integral", "SuperSpherical")
 ULP_STATE = 2      # model and implementation execute the same IEEE operations (+,-,/,* and the shared var_factor)
 ULP_VARFAC = 4     # var = (v / f) * f : two roundings; dict['var'] (=popt) vs model.var for models with var_factor != 1
@@ -244,6 +244,37 @@ def case_xy(case):
     return x, y
 
 
+def as_layout(a, kind):
+    """the same numbers in another dtype / container / memory layout (ints only for integral values)"""
+    a = np.asarray(a, dtype=float)
+    if kind in (None, "float64"):
+        return a
+    if kind in ("int64", "int32"):
+        return a.astype(kind)
+    if kind == "float32":
+        return a.astype(np.float32)
+    if kind == "list":
+        return a.tolist()
+    if kind == "list-int":
+        return a.astype(int).tolist()
+    if kind == "noncontig":          # every second element of a larger buffer / a transposed buffer
+        if a.ndim == 1:
+            buf = np.zeros(2 * a.size)
+            buf[::2] = a
+            return buf[::2]
+        return np.asfortranarray(a)
+    if kind == "f32-noncontig":
+        buf = np.zeros((2,) + a.shape, dtype=np.float32)
+        buf[0] = a
+        return np.moveaxis(buf, 0, -1)[..., 0]
+    raise ValueError(kind)
+
+
+def case_data(case):
+    x, y = case_xy(case)
+    return as_layout(x, case.get("xdtype")), as_layout(y, case.get("ydtype"))
+
+
 # ------------------------------------------------------------------ implementation run (curve_fit wrapped in-process)
 class NothingToFit(Exception):
     pass
@@ -265,11 +296,12 @@ def bounds_of(m):
     return rows
 
 
-def run_impl(case):
+def run_impl(case, model=None):
     import gstools.covmodel.fit as F
-    m = build_model(case, "start")
-    x, y = case_xy(case)
+    m = build_model(case, "start") if model is None else model
+    x, y = case_data(case)
     before = snap(m)
+    pre_copy = copy.deepcopy(m)
     bnds = bounds_of(m)
     rec = dict(called=False, evs=[], states=[], vars=[])
     orig = F.curve_fit
@@ -299,7 +331,7 @@ def run_impl(case):
         return popt, pcov
 
     F.curve_fit = wrapped
-    out = dict(model=m, before=before, bounds=bnds, rec=rec, err=0, msg="")
+    out = dict(model=m, before=before, bounds=bnds, rec=rec, err=0, msg="", pre_copy=pre_copy)
     try:
         ret = m.fit_variogram(x, y, return_r2=True, **fit_kwargs(case))
         out["dict"], out["pcov"], out["r2"] = ret
@@ -312,6 +344,11 @@ def run_impl(case):
     except RuntimeError as e:       # curve_fit: optimal parameters not found (max_nfev) -- documented scipy behaviour
         out["err"] = 8
         out["msg"] = "RuntimeError: " + str(e)[:150]
+    except Exception as e:  # noqa -- anything else is not a documented way for fit_variogram to end
+        import traceback
+        out["err"] = 9
+        out["msg"] = "%s: %s | %s" % (type(e).__name__, str(e)[:150], " <- ".join(
+            "%s:%d" % (fr.name, fr.lineno) for fr in traceback.extract_tb(e.__traceback__)[-3:]))
     finally:
         F.curve_fit = orig
     out["after"] = snap(m)
@@ -436,6 +473,8 @@ def compare_model(ctx, case, impl, mod):
                     bad.append("model state after evaluation %d at %r: implementation (_var, len_scale, nugget, opt, anis) = %r, model %r"
                                % (kk, impl["rec"]["evs"][kk], list(st[kk]), list(mod["trace"][kk])))
                     break
+    if ie == 9:
+        return bad
     if ie == 8:
         # errors outside the modelled bookkeeping (curve_fit itself, argument validation): the model must agree on
         # everything that happened before, i.e. it must not report one of ITS error kinds earlier -- unless the optimiser
@@ -493,7 +532,7 @@ def expected_sill(case, impl):
         return None
     if sill is not False:
         return float(sill)
-    m2 = build_model(case, "start")
+    m2 = copy.deepcopy(impl["pre_copy"])
     sel = k["select"]
     keepvar = m2.var
     var_fixed = None
@@ -607,6 +646,63 @@ def check_property(ctx, case, impl):
         got = cur["var"] + cur["nugget"]
         if abs(got - sill) > 1e-12 * abs(sill):
             out.append(("sill", "prescribed sill %r but var + nugget = %r (difference %.3e)" % (sill, got, got - sill)))
+    # 5. the model ends in the optimum: every fitted parameter is its entry of the popt that curve_fit returned
+    #    (documented layout: var, len_scale, nugget, optional arguments in opt_arg order, then the dim-1 anisotropy ratios)
+    popt = impl["rec"].get("popt")
+    if popt is not None:
+        fitted = [nme for nme in names if nme not in nf]
+        if sill is not None:
+            if "var" in nf and "nugget" in nf:
+                pass
+            elif "var" in nf:
+                fitted = [n_ for n_ in fitted if n_ != "nugget"]
+            elif "nugget" in nf:
+                fitted = [n_ for n_ in fitted if n_ != "var"]
+            else:
+                fitted = [n_ for n_ in fitted if n_ != "nugget"]
+        fit_anis = bool(anis_kw is True and isdir)
+        n_exp = len(fitted) + ((m.dim - 1) if fit_anis else 0)
+        if n_exp != len(popt):
+            out.append(("popt:layout", "curve_fit optimised %d parameters, the selection asks for %d (%r%s)"
+                        % (len(popt), n_exp, fitted, " + anis" if fit_anis else "")))
+        else:
+            for i, nme in enumerate(fitted):
+                okp = ulps(cur[nme], popt[i]) <= (tol_var if nme == "var" else 0)
+                if not okp:
+                    out.append(("popt:%s" % ("var" if nme == "var" else "len_scale" if nme == "len_scale" else "nugget" if nme == "nugget" else "opt"),
+                                "fitted parameter %s is %r after the call but curve_fit returned %r for it (popt = %r, fitted = %r)"
+                                % (nme, cur[nme], popt[i], popt, fitted)))
+            if fit_anis and ulps(after["anis"], popt[len(fitted):]) > 0:
+                out.append(("popt:anis", "fitted anis is %r after the call but curve_fit returned %r" % (after["anis"], popt[len(fitted):])))
+            if dependent == "nugget" and "var" in fitted:
+                if abs(cur["nugget"] - (sill - popt[0])) > 8 * 2.220446049250313e-16 * abs(sill):
+                    out.append(("popt:dep-nugget", "nugget is %r, the sill %r and the fitted variance %r ask for %r"
+                                % (cur["nugget"], sill, popt[0], sill - popt[0])))
+    # 6. the returned r2 is the r2 of the fitted curve against the given data (computed here in float64 from the public
+    #    variogram functions of the fitted model)
+    if "r2" in impl:
+        x64, y64 = case_xy(case)
+        if case.get("xdtype") in ("float32", "f32-noncontig"):
+            x64 = x64.astype(np.float32).astype(float)
+        if case.get("ydtype") in ("float32", "f32-noncontig"):
+            y64 = y64.astype(np.float32).astype(float)
+        yv = y64.reshape(-1)
+        if isdir:
+            vv = np.concatenate([m.vario_axis(x64, axis=i) for i in range(m.dim)])
+        elif m.latlon:
+            vv = m.vario_yadrenko(x64)
+        else:
+            vv = m.variogram(x64)
+        ss_tot = float(np.sum((yv - np.mean(yv)) ** 2))
+        if ss_tot > 0 and np.all(np.isfinite(vv)):
+            r2_ref = 1.0 - float(np.sum((yv - vv) ** 2)) / ss_tot
+            impl["r2_data"] = (yv, np.asarray(vv, float), r2_ref)
+            # float32 input: the implementation evaluates the model in float32 (eps 6e-8): |d r2| <= 2 sqrt(ss_res/ss_tot) * 1e-6
+            f32 = any(case.get(kk) in ("float32", "f32-noncontig") for kk in ("xdtype", "ydtype"))
+            tol = (1e-4 if f32 else 1e-9) * max(1.0, abs(r2_ref))
+            if not abs(float(impl["r2"]) - r2_ref) <= tol:
+                out.append(("r2", "returned r2 = %r but the fitted curve has r2 = %r against the data (x as %s, y as %s)"
+                            % (float(impl["r2"]), r2_ref, case.get("xdtype", "float64"), case.get("ydtype", "float64"))))
     return out
 
 
@@ -707,6 +803,10 @@ def run_recovery(ctx, case):
     impl = run_impl(case)
     key = ("recovery", case["cls"], "dir" if case["isdir"] else "latlon" if case["latlon"] else "iso", case["dim"])
     ctx.count(key, hist=dict(stage="recovery", cls=case["cls"], kind=key[2], dim=case["dim"]))
+    if impl["err"] == 9:
+        ctx.violation("probe: fit_variogram ends with an undocumented exception", impl["msg"], dict(case, note=impl["msg"]),
+                      key="exception:" + impl["msg"].split(":")[0])
+        return
     if impl["err"]:
         ctx.violation("probe: recovery", "fit_variogram raised on an exact synthetic variogram: " + impl["msg"], case,
                       key="recovery:raised:%s" % case["cls"])
@@ -728,9 +828,12 @@ def run_recovery(ctx, case):
 
 
 # ------------------------------------------------------------------ one bookkeeping case: implementation, model, property
-def run_case(ctx, drv, case, stage="generated"):
-    impl = run_impl(case)
+def run_case(ctx, drv, case, stage="generated", model=None):
+    impl = run_impl(case, model)
     m = impl["model"]
+    if impl["err"] == 9:
+        ctx.violation("probe: fit_variogram ends with an undocumented exception", impl["msg"], dict(case, note=impl["msg"]),
+                      key="exception:" + impl["msg"].split(":")[0])
     isdir = (m.dim > 1) and (len(case["x"]) * m.dim == int(np.prod(case["yshape"])))
     impl["isdir"] = isdir
     k = case["kwargs"]
@@ -755,11 +858,215 @@ def run_case(ctx, drv, case, stage="generated"):
         mod = run_model(drv, case, impl)
         tie_bad = compare_model(ctx, case, impl, mod)
     prop_bad = check_property(ctx, case, impl) if impl["err"] == 0 else []
+    if drv is not None and "r2_data" in impl:
+        # the extracted r2 model on (data, fitted curve) vs the returned r2 (sequential vs pairwise summation: 1e-9)
+        yv, vv, r2_ref = impl["r2_data"]
+        r2m = drv.call("r2_score", yv, vv)
+        f32 = any(case.get(kk) in ("float32", "f32-noncontig") for kk in ("xdtype", "ydtype"))
+        if not abs(r2m - float(impl["r2"])) <= (1e-4 if f32 else 1e-9) * max(1.0, abs(r2_ref)):
+            tie_bad.append("r2: implementation returned %r, the model's r2_score of the fitted curve is %r" % (float(impl["r2"]), r2m))
     for k2, text in prop_bad:
         ctx.violation("probe: property statement on fit_variogram", text, dict(case, note=text), key="prop:" + k2)
     if tie_bad and not prop_bad:
         return tie_bad
     return []
+
+
+# ------------------------------------------------------------------ systematic cells
+def basic_case(rng, cls, dim, truth, start, bounds, kw, kind="iso", nb=14, noise=0.02, geo=1.0, int_x=False):
+    """one configuration with data generated from `truth` (kind: iso / dir / latlon)"""
+    latlon = kind == "latlon"
+    case = dict(cls=cls, dim=3 if latlon else dim, latlon=latlon, geo_scale=geo, truth=dict(truth), isdir=kind == "dir", bounds=bounds)
+    tm = build_model(case, "truth")
+    L = truth["len_scale"]
+    if int_x:
+        x = np.arange(1, nb + 1, dtype=float) * max(1.0, float(round(3.0 * L / nb)))
+    else:
+        x = np.linspace(0.1 * L, 3.0 * L, nb)
+    if kind == "dir":
+        y = np.array([tm.vario_axis(x, axis=i) for i in range(dim)])
+    elif latlon:
+        y = tm.vario_yadrenko(x)
+    else:
+        y = tm.variogram(x)
+    if noise:
+        y = y * (1.0 + noise * rng.uniform(-1, 1, size=np.shape(y)))
+    case.update(start=dict(start), x=[C.fhex(v) for v in x], y=[C.fhex(v) for v in np.asarray(y).ravel()],
+                yshape=list(np.shape(y)), kwargs=kw)
+    return case
+
+
+def sill_table_cases(rng, thorough):
+    """prescribed sill x every selection pattern of (var, nugget) x customised bounds (lower bounds > 0, tight upper
+    bounds) x initial / fixed values above and below the sill: every cell of the sill decision table of _pre_para"""
+    cases = []
+    classes = [("Exponential", {})] + ([("Matern", {"nu": 1.0}), ("TPLGaussian", {"hurst": 0.5, "len_low": 0.0})] if thorough else
+                                       [("TPLGaussian", {"hurst": 0.5, "len_low": 0.0})])
+    bsets = [{},
+             {"nugget": [0.2, 5.0, "cc"], "var": [0.1, 10.0, "cc"]},
+             {"nugget": [0.05, 0.6, "co"], "var": [0.3, 1.6, "oo"]},
+             {"nugget": [0.0, 0.4, "cc"]}]
+    sel_kinds = ["fit", True, False, "below", "above"]
+    for cls, opt in classes:
+        sub = cls != "Exponential"
+        for bi, bnd in enumerate(bsets):
+            for vs in sel_kinds:
+                for ns in sel_kinds:
+                    for init in ("below", "above"):
+                        for sill_kind in ("value", False):
+                            if sub and rng.random() < 0.75:
+                                continue          # the other classes: a random quarter of the table
+                            sill = 1.2
+                            truth = dict(var=0.9, len_scale=4.0, nugget=0.3, **opt)
+                            vlo, vhi = (bnd.get("var") or [0.0, np.inf])[:2]
+                            nlo, nhi = (bnd.get("nugget") or [0.0, np.inf])[:2]
+                            clipv = lambda v: float(min(max(v, vlo + 0.01), vhi - 0.01))
+                            clipn = lambda v: float(min(max(v, nlo + 0.01), nhi - 0.01)) if nlo > 0 or v > 0 else float(max(v, nlo))
+                            start = dict(var=clipv(0.7 if init == "below" else 1.5),
+                                         nugget=clipn(0.25 if init == "below" else 1.4), len_scale=3.0, **opt)
+                            sel = []
+                            if vs != "fit":
+                                sel.append(["var", vs if isinstance(vs, bool) else clipv(0.8 if vs == "below" else 1.45)])
+                            if ns != "fit":
+                                sel.append(["nugget", ns if isinstance(ns, bool) else clipn(0.3 if ns == "below" else 1.3)])
+                            for o in opt:
+                                sel.append([o, False])
+                            if rng.random() < 0.5:
+                                sel.reverse()
+                            kw = dict(select=sel, sill=(sill if sill_kind == "value" else False), method="trf",
+                                      loss=str(rng.choice(["soft_l1", "linear"])))
+                            c = basic_case(rng, cls, int(rng.integers(1, 4)), truth, start, {k: list(v) for k, v in bnd.items()}, kw)
+                            c["cell"] = "sill-table:%s:b%d:var=%s:nug=%s:init=%s:sill=%s" % (cls, bi, vs, ns, init, sill_kind)
+                            cases.append(c)
+    return cases
+
+
+def opt_pattern_cases(rng, thorough):
+    """every pattern (fit / deselected / fixed) over the optional arguments of the multi-argument classes, isotropic and
+    directional data (the position of each fitted value in popt depends on the whole pattern)"""
+    import itertools
+    cases = []
+    specs = [("TPLStable", dict(hurst=0.5, alpha=1.5, len_low=0.2)), ("TPLGaussian", dict(hurst=0.5, len_low=0.2)),
+             ("TPLExponential", dict(hurst=0.4, len_low=0.0)), ("Matern", dict(nu=1.2)), ("Stable", dict(alpha=1.4))]
+    for cls, opt in specs:
+        for pat in itertools.product(("fit", False, "fix"), repeat=len(opt)):
+            for kind in ("iso", "dir"):
+                dim = int(rng.integers(2, 4)) if kind == "dir" else int(rng.integers(1, 4))
+                truth = dict(var=float(rng.uniform(0.6, 2.0)), len_scale=float(rng.uniform(3, 8)), nugget=float(rng.uniform(0.05, 0.4)), **opt)
+                if kind == "dir":
+                    truth["anis"] = [float(a) for a in rng.uniform(0.4, 0.9, dim - 1)]
+                start = {k: (float(v * rng.uniform(0.8, 1.25)) if k != "anis" and v != 0 else v) for k, v in truth.items()}
+                start["hurst"] = min(start.get("hurst", 0.5), 0.9) if "hurst" in start else None
+                start = {k: v for k, v in start.items() if v is not None}
+                if "alpha" in start:
+                    start["alpha"] = min(start["alpha"], 1.95)
+                sel = []
+                for o, pk in zip(opt, pat):
+                    if pk is False:
+                        sel.append([o, False])
+                    elif pk == "fix":
+                        sel.append([o, float(opt[o])])
+                for nme in ("var", "len_scale", "nugget"):
+                    r = rng.random()
+                    if r < 0.2:
+                        sel.append([nme, False])
+                    elif r < 0.3:
+                        sel.append([nme, float(truth[nme])])
+                order = rng.permutation(len(sel))
+                sel = [sel[i] for i in order]
+                kw = dict(select=sel, method="trf", loss="soft_l1", init_guess=str(rng.choice(["default", "current"])))
+                c = basic_case(rng, cls, dim, truth, start, {}, kw, kind=kind)
+                c["cell"] = "opt-pattern:%s:%s:%s" % (cls, "/".join(str(p_) for p_ in pat), kind)
+                cases.append(c)
+    if not thorough:
+        keep = rng.permutation(len(cases))[:70]
+        # the full TPLStable table is always kept (3 optional arguments)
+        cases = [c for i, c in enumerate(cases) if i in set(keep) or c["cls"] == "TPLStable"]
+    return cases
+
+
+def dtype_cases(rng, thorough):
+    """dtype / container / memory-layout classes of x_data and y_data x isotropic / directional / lat-lon fits"""
+    cases = []
+    xkinds = ["int64", "int32", "list-int", "float32", "list", "noncontig", "f32-noncontig"]
+    ykinds = ["float64", "float32", "list", "noncontig"]
+    classes = ["Exponential", "Gaussian", "Spherical", "Matern"] if thorough else ["Exponential", "Spherical"]
+    for kind in ("iso", "dir", "latlon"):
+        for xk in xkinds:
+            for yk in ykinds:
+                cls = str(rng.choice(classes))
+                dim = int(rng.integers(2, 4)) if kind == "dir" else int(rng.integers(1, 4))
+                geo = 6371.0 if kind == "latlon" else 1.0
+                L = float(rng.uniform(4.0, 9.0)) * (100.0 if kind == "latlon" else 1.0)
+                truth = dict(var=float(rng.uniform(0.6, 2.0)), len_scale=L, nugget=float(rng.uniform(0.05, 0.4)))
+                if cls == "Matern":
+                    truth["nu"] = 1.0
+                if kind == "dir":
+                    truth["anis"] = [float(a) for a in rng.uniform(0.4, 0.9, dim - 1)]
+                start = {k: (float(v * rng.uniform(0.8, 1.25)) if k not in ("anis", "nu") else v) for k, v in truth.items()}
+                sel = [["nu", False]] if cls == "Matern" else []
+                if rng.random() < 0.3:
+                    sel.append(["nugget", False])
+                kw = dict(select=sel, method="trf", loss=str(rng.choice(["soft_l1", "linear"])))
+                if "float32" in xk or "f32" in xk:
+                    kw["init_guess"] = "current"      # mean(x) * rescale would be a float32 product in the implementation
+                else:
+                    kw["init_guess"] = str(rng.choice(["default", "current"]))
+                if rng.random() < 0.3:
+                    kw["weights"] = "inv"
+                c = basic_case(rng, cls, dim, truth, start, {}, kw, kind=kind, nb=int(rng.integers(10, 21)), geo=geo,
+                               int_x=True, noise=float(rng.choice([0.0, 0.03])))
+                c["xdtype"], c["ydtype"] = xk, yk
+                c["cell"] = "dtype:%s:x=%s:y=%s" % (kind, xk, yk)
+                cases.append(c)
+    return cases
+
+
+def present_case(m, case):
+    """rewrite start / bounds of `case` to the PRESENT parameters of the object it is going to be run on"""
+    st = dict(var=float(m.var), len_scale=float(m.len_scale), nugget=float(m.nugget))
+    for o in m.opt_arg:
+        st[o] = float(getattr(m, o))
+    if m.dim > 1 and not m.latlon:
+        st["anis"] = [float(a) for a in m.anis]
+    case["start"] = st
+    case["bounds"] = {k: list(v) for k, v in m.arg_bounds.items()}
+    return case
+
+
+def run_history(ctx, drv, rng, ostate, steps=3):
+    """several fit_variogram calls (other data, selections, sill, ...) and in-place changes on ONE model object; every call
+    is compared with FitBook started from the object's present parameters (the theorems speak about exactly that: the
+    result is a function of the present parameters, the keywords and popt) and probed against the property statement"""
+    cls = str(rng.choice(CLASSES))
+    first = gen_case(rng, "quick", dict(cls=cls))
+    m = build_model(first, "start")
+    tb_all = []
+    for step in range(steps):
+        case = first if step == 0 else gen_case(rng, "quick", dict(cls=cls, dim=first["dim"], latlon=first["latlon"]))
+        case["kwargs"]["select"] = [sv for sv in case["kwargs"]["select"] if sv[0] != "wrong_name"]
+        if step > 0:
+            # an in-place change between the calls
+            r = rng.random()
+            try:
+                if r < 0.3:
+                    m.len_scale = float(m.len_scale * rng.uniform(0.5, 2.0))
+                elif r < 0.5:
+                    m.nugget = float(rng.uniform(0.0, 0.5))
+                elif r < 0.7:
+                    m.var = float(rng.uniform(0.3, 3.0))
+                elif r < 0.85:
+                    m.set_arg_bounds(nugget=[0.0, float(rng.uniform(2.0, 9.0)), "cc"])
+            except ValueError:
+                pass
+        present_case(m, case)
+        case["cell"] = "history:%s:step%d" % (cls, step)
+        ostate["copy"] = copy.deepcopy(m)
+        tb = run_case(ctx, drv, case, stage="history", model=m)
+        tb_all += ["history step %d: %s" % (step, t) for t in tb]
+        if tb and "first" not in ostate:
+            ostate["first"] = (case, tb)
+    return tb_all
 
 
 def oracle_factory(state):
@@ -785,7 +1092,10 @@ def run(ctx):
                 "selections (fit / True / False / fixed value, random order, unknown names) x sill None/True/False/value (also "
                 "infeasible) x anis True/False/fixed x init_guess default/current/dict x weights None/inv/callable/array x method x "
                 "loss x max_eval; non-trivial = curve_fit was reached and evaluated the curve at least 3 times; distinct = distinct "
-                "(class, dim, latlon, directional, selection kinds, sill kind, anis kind, outcome)")
+                "(class, dim, latlon, directional, selection kinds, sill kind, anis kind, outcome); plus systematic cells: sill decision table "
+                "(sill value/False x var and nugget selection kinds x 4 bounds sets with lower bounds > 0 / tight upper bounds x start "
+                "below/above the sill), optional-argument selection patterns of the multi-argument classes x iso/directional, "
+                "dtype/container/layout classes of x and y x iso/directional/lat-lon with return_r2; 3-call histories on one object")
     ctx.trusted = [
         "Coq 8.16.1 kernel; stdlib Reals axioms as printed per theorem",
         "ExtrOcamlBasic extraction; OCaml float instance (ocaml/proto.ml)",
@@ -843,6 +1153,23 @@ def run(ctx):
             tb = run_case(ctx, drv, case, stage="pattern")
             tie_broken += tb
         C.log("[C10] correspondence + property probes on %d generated configurations: %.1fs" % (n_cases, time.time() - t0))
+        # ---- systematic cells: sill decision table, optional-argument patterns, dtype / layout classes of the data
+        for stage_name, gen in (("sill-table", sill_table_cases), ("opt-pattern", opt_pattern_cases), ("dtype", dtype_cases)):
+            cs = gen(rng, thorough)
+            for case in cs:
+                ostate["copy"] = build_model(case, "start")
+                tb = run_case(ctx, drv, case, stage=stage_name)
+                if tb and first_tie_case is None:
+                    first_tie_case = (case, tb)
+                tie_broken += tb
+            C.log("[C10] %s: %d cells, %.1fs" % (stage_name, len(cs), time.time() - t0))
+        # ---- histories on one object
+        for h in range(150 if thorough else 25):
+            tb = run_history(ctx, drv, rng, ostate)
+            if tb and first_tie_case is None and "first" in ostate:
+                first_tie_case = ostate["first"]
+            tie_broken += tb
+        C.log("[C10] histories: %.1fs" % (time.time() - t0))
         # ---- recovery probes
         for rep in range(6 if thorough else 1):
             for case in recovery_cases(rng, ctx.tier):
